@@ -352,57 +352,77 @@ MUTATORS = {"append", "extend", "insert", "pop", "remove", "clear", "update", "s
 def single_read_per_request(ck, prog, rule):
     """Dask reads equal eager reads: _read_data must hand the *whole* request (offset, n) to one _read_array call on both
     paths.  Readers are not required to be additive over adjacent ranges (real-sampled data is Hilbert-transformed per read), so
-    a lazy path that splits the request into sub-ranges returns different samples than the eager path."""
-    f = prog.func("BaseReader._read_data")
-    ck.run.touched(f)
-    params = [p_ for p_, _ in f.params()]
+    a lazy path that splits the request into sub-ranges returns different samples than the eager path.  Helpers that
+    _read_data passes the reader and the request to are followed."""
+    f0 = prog.func("BaseReader._read_data")
+    ck.run.touched(f0)
+    params = [p_ for p_, _ in f0.params()]
     if len(params) < 3:
-        ck.unk(rule, f.where, "_read_data(self, offset, n, ...)", "has the request's offset and length as parameters", str(params))
+        ck.unk(rule, f0.where, "_read_data(self, offset, n, ...)", "has the request's offset and length as parameters", str(params))
         return
-    selfn, off, cnt = params[0], params[1], params[2]
-    wrappers = set()
-    alias = {off: off, cnt: cnt}
+    found = []          # (function, call node, ok, text)
 
-    def is_read_array(e):
-        return isinstance(e, ast.Attribute) and e.attr == "_read_array" and isinstance(e.value, ast.Name) and e.value.id == selfn
+    def visit(f, alias, depth):
+        """alias: local name -> 'self' | 'offset' | 'n'"""
+        alias = dict(alias)
+        wrappers = set()
 
-    for st in ast.walk(f.node):
-        if isinstance(st, ast.Assign) and len(st.targets) == 1 and isinstance(st.targets[0], ast.Name):
-            v = st.value
-            if isinstance(v, ast.Call) and v.args and is_read_array(v.args[0]):
-                wrappers.add(st.targets[0].id)          # delayed_read = dask.delayed(self._read_array, ...)
-            # offset/length passed through an index-normalising call keep their meaning
-            src = v.args[0] if (isinstance(v, ast.Call) and len(v.args) == 1 and norm(v.func) in ("int", "operator.index", "np.int64")) else v
-            if isinstance(src, ast.Name) and src.id in alias:
+        def is_read_array(e):
+            return isinstance(e, ast.Attribute) and e.attr == "_read_array" and isinstance(e.value, ast.Name) and alias.get(e.value.id) == "self"
+
+        def src_of(e):
+            if isinstance(e, ast.Call) and len(e.args) == 1 and not e.keywords and norm(e.func) in ("int", "operator.index", "np.int64"):
+                e = e.args[0]
+            return alias.get(e.id) if isinstance(e, ast.Name) else None
+        for st in ast.walk(f.node):
+            if isinstance(st, ast.Assign) and len(st.targets) == 1 and isinstance(st.targets[0], ast.Name):
+                v = st.value
+                tgt = st.targets[0].id
+                if isinstance(v, ast.Call) and v.args and is_read_array(v.args[0]):
+                    wrappers.add(tgt)          # delayed_read = dask.delayed(self._read_array, ...)
+                    continue
                 n_defs = sum(1 for s2 in ast.walk(f.node) if isinstance(s2, (ast.Assign, ast.AugAssign)) and any(
-                    isinstance(t_, ast.Name) and t_.id == st.targets[0].id for t_ in (s2.targets if isinstance(s2, ast.Assign) else [s2.target])))
-                if n_defs == 1:
-                    alias[st.targets[0].id] = alias[src.id]
-    calls = []
-    for c in ast.walk(f.node):
-        if isinstance(c, ast.Call):
+                    isinstance(t_, ast.Name) and t_.id == tgt for t_ in (s2.targets if isinstance(s2, ast.Assign) else [s2.target])))
+                sv = src_of(v)
+                if sv is not None and n_defs == 1 and tgt not in alias:
+                    alias[tgt] = sv
+        for c in ast.walk(f.node):
+            if not isinstance(c, ast.Call):
+                continue
             fn = c.func
             direct = is_read_array(fn)
             wrapped = isinstance(fn, ast.Name) and fn.id in wrappers
             inline = isinstance(fn, ast.Call) and fn.args and is_read_array(fn.args[0])      # dask.delayed(self._read_array)(...)
             if direct or wrapped or inline:
-                calls.append(c)
-    if not calls:
-        ck.unk(rule, f.where, "_read_data", "calls self._read_array (directly or through dask.delayed)", "no call found")
+                a0 = c.args[0] if c.args else next((k.value for k in c.keywords if k.arg == "offset"), None)
+                a1 = c.args[1] if len(c.args) > 1 else next((k.value for k in c.keywords if k.arg == "n"), None)
+                ok = a0 is not None and a1 is not None and src_of(a0) == "offset" and src_of(a1) == "n"
+                found.append((f, c, ok, f"reads ({norm(a0) if a0 is not None else '?'}, {norm(a1) if a1 is not None else '?'})"))
+                continue
+            # a helper of the package that receives the reader: follow it with the argument binding
+            if depth < 3 and any(isinstance(a_, ast.Name) and alias.get(a_.id) == "self" for a_ in c.args):
+                tgt_name = fn.id if isinstance(fn, ast.Name) else None
+                cands = [g for g in prog.all_functions if tgt_name and g.qualname == tgt_name and g.module == f.module]
+                for g in cands:
+                    gp = [p_ for p_, _ in g.params()]
+                    bind = {}
+                    for p_, a_ in zip(gp, c.args):
+                        s_ = src_of(a_) if not (isinstance(a_, ast.Name) and alias.get(a_.id) == "self") else "self"
+                        if s_ is not None:
+                            bind[p_] = s_
+                    for k in c.keywords:
+                        if k.arg in gp and src_of(k.value) is not None:
+                            bind[k.arg] = src_of(k.value)
+                    ck.run.touched(g)
+                    visit(g, bind, depth + 1)
+    visit(f0, {params[0]: "self", params[1]: "offset", params[2]: "n"}, 0)
+    if not found:
+        ck.unk(rule, f0.where, "_read_data", "calls self._read_array (directly, through dask.delayed, or in a helper given the reader)", "no call found")
         return
-    for c in calls:
-        a0 = c.args[0] if c.args else next((k.value for k in c.keywords if k.arg == off), None)
-        a1 = c.args[1] if len(c.args) > 1 else next((k.value for k in c.keywords if k.arg == cnt), None)
-
-        def src_of(e):
-            if isinstance(e, ast.Call) and len(e.args) == 1 and norm(e.func) in ("int", "operator.index"):
-                e = e.args[0]
-            return alias.get(e.id) if isinstance(e, ast.Name) else None
-        ok = src_of(a0) == off and src_of(a1) == cnt
+    for f, c, ok, text in found:
         ck.same(rule, f.where, norm(c)[:100], "every read issued for a request covers exactly the requested (offset, n): the lazy path wraps the same single read "
-                "as the eager path (readers need not be additive over adjacent ranges)", ok,
-                found=f"reads ({norm(a0) if a0 is not None else '?'}, {norm(a1) if a1 is not None else '?'})", nontrivial=True)
-    ck.run.floor(rule, "_read_array call sites in _read_data", len(calls), 2)
+                "as the eager path (readers need not be additive over adjacent ranges)", ok, found=text, nontrivial=True)
+    ck.run.floor(rule, "_read_array call sites reached from _read_data", len(found), 2)
 
 
 def memo_results_untouched(ck, prog, run):
